@@ -68,11 +68,34 @@ class MyPyAstVisitor:
         self.__declaration_stack: list[Module | Class | Function | Enum | list[Attribute | EnumInstance]] = []
         self.aliases = aliases
         self.mypy_file: mp_nodes.MypyFile | None = None
+        self._prepared_package_modules: dict[str, Module] = {}
         # We gather type var types used as a parameter type in a function
         self.type_var_types: set[sds_types.TypeVarType] = set()
 
+    def collect_reexports(self, node: mp_nodes.MypyFile) -> None:
+        """Register the imports of a package file as reexports before any declaration is analysed.
+
+        Whether a declaration is reexported must not depend on the order in which the package files are analysed.
+        """
+        module = self._create_module(node)
+        self._prepared_package_modules[module.id] = module
+        self._add_reexports(module)
+
     def enter_moduledef(self, node: mp_nodes.MypyFile) -> None:
         self.mypy_file = node
+        is_package = Path(node.path).name == "__init__.py"
+
+        # The reexports of a package file may have been registered already, then its module exists
+        module = self._prepared_package_modules.pop(node.fullname.replace(".", "/"), None)
+        if module is None:
+            module = self._create_module(node)
+            if is_package:
+                self._add_reexports(module)
+
+        self.__declaration_stack.append(module)
+
+    @staticmethod
+    def _create_module(node: mp_nodes.MypyFile) -> Module:
         is_package = Path(node.path).name == "__init__.py"
 
         qualified_imports: list[QualifiedImport] = []
@@ -120,18 +143,13 @@ class MyPyAstVisitor:
         name = "__init__" if is_package else node.name
 
         # Remember module, so we can later add classes and global functions
-        module = Module(
+        return Module(
             id_=id_,
             name=name,
             docstring=docstring,
             qualified_imports=qualified_imports,
             wildcard_imports=wildcard_imports,
         )
-
-        if is_package:
-            self._add_reexports(module)
-
-        self.__declaration_stack.append(module)
 
     def leave_moduledef(self, _: mp_nodes.MypyFile) -> None:
         module = self.__declaration_stack.pop()
